@@ -5,7 +5,9 @@ HERE="$(cd "$(dirname "$0")" && pwd)"
 cd "$HERE"
 export PYTHONPATH="${XMLDIFF_REPO:-/repo}:$HERE" PYTHONHASHSEED=0
 if [ -f translator/xlate.py ]; then
-  /venv/bin/python translator/xlate.py "${XMLDIFF_REPO:-/repo}" coq/theories/Gen
+  # exit status 3 = some target of the translator failed and its recorded reference tables are used (the checks of the
+  # properties tied through that target report it); 2 = nothing usable
+  /venv/bin/python translator/xlate.py "${XMLDIFF_REPO:-/repo}" coq/theories/Gen || [ $? -eq 3 ]
 fi
 cd coq
 coq_makefile -f _CoqProject -o Makefile
